@@ -36,9 +36,10 @@ def verify(d: Path, run_tests=True):
             return res
         rc0, out0 = sh([PY, str(d / "demo.py")], wt, 600)
         res["demo_without_patch"] = {"rc": rc0, "tail": out0[-300:]}
-        rc, out = sh(["git", "apply", str(d / "patch.diff")], wt)
+        patch = d / ("patch.rebased.diff" if (d / "patch.rebased.diff").exists() else "patch.diff")
+        rc, out = sh(["git", "apply", str(patch)], wt)
         if rc:
-            rc, out = sh(["patch", "-p1", "-s", "-f", "--no-backup-if-mismatch", "-i", str(d / "patch.diff")], wt)
+            rc, out = sh(["patch", "-p1", "-s", "-f", "--no-backup-if-mismatch", "-i", str(patch)], wt)
         res["applies"] = rc == 0
         if rc:
             res["error"] = "patch does not apply: " + out[-400:]
